@@ -176,6 +176,29 @@ impl T {
     }
 }
 
+/// TOML's entry order on a normal form: per map first the entries written inline, then the entries
+/// written as `[table]` (maps) or `[[array of tables]]` (non-empty sequences of maps only), each group
+/// in its original order; inline values are left alone.
+fn toml_order(t: &T) -> T {
+    fn table_like(v: &T) -> bool {
+        match v {
+            T::M(_) => true,
+            T::Tu(xs) | T::L(xs) => !xs.is_empty() && xs.iter().all(|x| matches!(x, T::M(_))),
+            _ => false,
+        }
+    }
+    match t {
+        T::M(es) => {
+            let mut out: Vec<(T, T)> = es.iter().filter(|(_, v)| !table_like(v)).cloned().collect();
+            out.extend(es.iter().filter(|(_, v)| table_like(v)).map(|(k, v)| (k.clone(), toml_order(v))));
+            T::M(out)
+        }
+        T::Tu(xs) if table_like(t) => T::Tu(xs.iter().map(toml_order).collect()),
+        T::L(xs) if table_like(t) => T::L(xs.iter().map(toml_order).collect()),
+        other => other.clone(),
+    }
+}
+
 /// harness-side normal form (independent of the Lean model; uses the real `ValueKey: Display`)
 fn hnorm(t: &T) -> T {
     match t {
@@ -761,7 +784,17 @@ impl Ctx {
             let lossy_json = *fmt == "json" && !m_fin;
             let model_expected = if lossy_json { m_json.clone() } else { m_rt.clone() };
             let (impl_txt, model_txt, d_txt) = if *fmt == "toml" {
-                (bt.sorted().text(), parse_val(&model_expected).map(|v| v.sorted().text()).unwrap_or(model_expected.clone()), hn.sorted().text())
+                // exact, entry order included: TOML's order is "inline entries, then tables" per table
+                // (Model.tomlOrd; harness-side `toml_order` written independently)
+                let m_tomlrt = field(&resp, "tomlrt").to_string();
+                let exact = (bt.text(), m_tomlrt, toml_order(&hn).text());
+                if exact.0 != exact.2 && bt.sorted().text() == hn.sorted().text() {
+                    // the value is right (Koto's == ignores order), only the order is not the stated one
+                    self.viol_d("C20:toml: entry order after the round trip is not `inline entries, then tables`",
+                        json!({"input": req, "format": fmt, "document": txt, "impl": exact.0, "expected_order": exact.2}));
+                    continue;
+                }
+                exact
             } else {
                 (bt.text(), model_expected.clone(), hn.text())
             };
@@ -1817,6 +1850,54 @@ fn oor_one<A: Fam>(v: &T) -> Result<Result<String, String>, String> {
 }
 
 impl Ctx {
+    /// (D) a finite number beyond the `f32` range must not silently become an infinity (F-C20-8);
+    /// (K) `Model.fromKoto .f32`. Precision loss inside the range (rounding, underflow to 0) is not a
+    /// range error and is only compared with the model.
+    fn f32_grid(&mut self) {
+        let half_ulp_above_max = 3.4028235677973366e38f64; // the smallest f64 that `as f32` rounds to +inf
+        let inputs: Vec<T> = [
+            0.0f64, 1.5, 0.1, f32::MAX as f64, 3.4028235677973362e38, half_ulp_above_max, 3.5e38, 1e39, 1e300, f64::MAX,
+            -(f32::MAX as f64), -half_ulp_above_max, -1e39, -1e300, 1e-46, 1e-300, f64::INFINITY, f64::NEG_INFINITY, f64::NAN,
+        ]
+        .iter()
+        .map(|f| T::F(f.to_bits()))
+        .chain([T::I(i64::MAX), T::I(i64::MIN), T::I(16777217), T::I(0)])
+        .collect();
+        for v in inputs {
+            let req = format!("from f32 {}", v.text());
+            let resp = self.drv.ask(&req);
+            self.rep.case(&req, true);
+            let real = match from_case::<f32>(&v) {
+                Err(p) => {
+                    self.viol_d("C20:no-panic:from_koto_value", json!({"input": req, "panic": p}));
+                    continue;
+                }
+                Ok(Ok(rv)) => format!("ok {}", rv),
+                Ok(Err(_)) => "err".to_string(),
+            };
+            if real != resp {
+                self.viol_k("Model.fromKoto (f32)", json!({"input": req, "impl": real, "model": resp}));
+                continue;
+            }
+            let overflow = match &v {
+                T::F(b) => {
+                    let f = f64::from_bits(*b);
+                    f.is_finite() && (f as f32).is_infinite()
+                }
+                _ => false,
+            };
+            self.rep.bump(&format!("f32_grid={}", if overflow { "beyond-f32-range" } else { "representable-or-non-finite" }));
+            if overflow && real != "err" {
+                let inf = if matches!(&v, T::F(b) if f64::from_bits(*b) > 0.0) { "ok g7f800000" } else { "ok gff800000" };
+                if real == inf && self.open.iter().any(|o| o == "F-C20-8") {
+                    *self.known_counts.entry("F-C20-8".into()).or_insert(0) += 1;
+                } else {
+                    self.viol_d("C20:finite number beyond the f32 range accepted by from_koto_value", json!({"input": req, "impl": real, "expected": "error"}));
+                }
+            }
+        }
+    }
+
     /// (D) "out-of-range input yields an error": every integer type × numbers around its bounds.
     fn oor_grid(&mut self) {
         type F = fn(&T) -> Result<Result<String, String>, String>;
@@ -2471,6 +2552,7 @@ fn main() {
     rust!(Tree, "recursive enum Tree"); rust!(Chain, "recursive struct Chain"); rust!(Expr, "recursive enum Expr"); rust!(Vec<Tree>, "Vec<Tree>");
     rust!(Vec<Shape>, "Vec<Shape>"); rust!(Option<Vec<BTreeMap<String, Fill>>>, "Option<Vec<BTreeMap<String,Fill>>>");
     cx.oor_grid();
+    cx.f32_grid();
 
     // ---- 3b. nesting depth around the readers' limits (F-C20-5) ----
     {
@@ -2622,6 +2704,7 @@ fn main() {
                 fails
             }
             "F-C20-6" => matches!(cx.libs.from_string("json", "-9223372036854775809"), Ok(Ok(_))) || matches!(cx.libs.from_string("json", "18446744073709551616"), Ok(Ok(_))),
+            "F-C20-8" => matches!(from_case::<f32>(&T::F(1e300f64.to_bits())), Ok(Ok(_))),
             "F-C20-7" => !matches!(worker.request("fromcyc nest-cyclic-list", Duration::from_secs(30)), kvh::worker::Reply::Ok(s) if s == "err"),
             "F-C20-2" => {
                 let x: NestedOpt = Some(None);
